@@ -77,6 +77,11 @@ def check(case, rec):
     rec.label(*S.spec_classes(fs))
     if not chans:
         return
+    truncated = False
+    if case.get('cut') is not None and lay and lay[-1]['end'] - lay[-1]['data_pos'] > 1:
+        data = data[:lay[-1]['data_pos'] + 1 + case['cut'] % (lay[-1]['end'] - lay[-1]['data_pos'] - 1)]
+        truncated = True
+        rec.label('truncated_final_chunk')
     stream = RecordingStream(data)
     ok, tf = rec.guard('open', lambda: TdmsFile.open(stream))
     if not ok:
@@ -94,8 +99,18 @@ def check(case, rec):
             p = chans[ci % len(chans)]
             g, c = split_path(p)
             ch = tf[g][c]
-            n = ex.length(p)
+            n = len(ch) if truncated else ex.length(p)
+            if n == 0:
+                continue
             nchunks = len([r for r in ex.chunk_table(p) if r[3] > 0])
+            if kind == 'window_to_chunk_start':
+                # a window that ends exactly where some chunk starts
+                starts = [r[2] for r in ex.chunk_table(p) if r[3] > 0 and 0 < r[2] <= n]
+                if not starts:
+                    continue
+                bnd = starts[y % len(starts)]
+                x, y, kind = x % bnd, None, 'window'
+                y = bnd - x
             stream.log = []
             try:
                 if kind == 'window':
@@ -170,13 +185,16 @@ def cases(draw, **kw):
     fs = draw(S.file_spec(**opts))
     reqs = []
     for _ in range(24):
-        kind = draw(st.sampled_from(['window', 'slice', 'index', 'index', 'index']))
+        kind = draw(st.sampled_from(['window', 'window_to_chunk_start', 'slice', 'index', 'index', 'index']))
         reqs.append([kind, draw(st.integers(0, 7)), draw(st.integers(0, 10 ** 5)), draw(st.integers(0, 10 ** 5))])
         if kind == 'index' and draw(st.booleans()):
             # neighbour index: often falls into the chunk just read
             r = reqs[-1]
             reqs.append(['index', r[1], r[2] + draw(st.integers(-1, 1)), 0])
-    return {'fs': fs, 'reqs': reqs}
+    cut = draw(st.one_of(st.none(), st.none(), st.integers(0, 10 ** 6)))
+    if cut is not None and any(t == 'str' for (_p, t, _n) in fs['segments'][-1]['active']):
+        cut = None
+    return {'fs': fs, 'reqs': reqs, 'cut': cut}
 
 
 def jobs(tier):
